@@ -133,8 +133,15 @@ func accName(flag int) string {
 
 func (m *machine) refSize() int64 {
 	fi, err := os.Stat(m.w.Root + "/f")
-	must(err)
+	if err != nil {
+		return 0 // the case started with the file removed and nothing has created it yet
+	}
 	return fi.Size()
+}
+
+func (m *machine) refExists() bool {
+	_, err := os.Stat(m.w.Root + "/f")
+	return err == nil
 }
 
 func rel(off, size int64) string {
@@ -160,7 +167,7 @@ func (m *machine) step(a Act) (sig, msg string) {
 	}
 	m.lastFailed = false
 	h := m.slots[a.Slot]
-	if a.K != "open" && h == nil {
+	if a.K != "open" && a.K != "unlink" && h == nil {
 		return "", ""
 	}
 	if h != nil {
@@ -176,6 +183,13 @@ func (m *machine) step(a Act) (sig, msg string) {
 	var pan string
 	var hung bool
 	switch a.K {
+	case "unlink":
+		// only generated as the first act of a case: the file does not exist until an open with O_CREATE makes it
+		must(os.Remove(m.w.Root + "/f"))
+		if err := hackpadfs.Remove(m.fs, "f"); err != nil {
+			return fail("unlink", "%v", err)
+		}
+		return "", ""
 	case "open":
 		if h != nil {
 			return "", ""
@@ -386,12 +400,18 @@ func (m *machine) step(a Act) (sig, msg string) {
 	}
 	// after every call: contents and every handle's offset agree
 	want, err := os.ReadFile(m.w.Root + "/f")
-	must(err)
 	var got []byte
 	var gerr error
 	pan, hung = vf.Guard(func() { got, gerr = hackpadfs.ReadFile(m.fs, "f") })
 	if pan != "" || hung {
 		return base + ":contents-crash", fmt.Sprintf("after %v: ReadFile %s hung=%v", a, pan, hung)
+	}
+	if err != nil {
+		// still missing on the reference side
+		if gerr == nil {
+			return base + ":contents", fmt.Sprintf("after %v: the file does not exist for os (%v) but impl reads %q", a, err, got)
+		}
+		return "", ""
 	}
 	if gerr != nil || !bytes.Equal(want, got) {
 		return base + ":contents", fmt.Sprintf("after %v: os=%q impl=%q (%v)", a, want, got, gerr)
@@ -444,7 +464,11 @@ func drawAct(t *rapid.T, m *machine) Act {
 		if rapid.IntRange(0, 5).Draw(t, "trunc") == 0 {
 			a.Flag |= os.O_TRUNC
 		}
-		if rapid.IntRange(0, 5).Draw(t, "create") == 0 {
+		createOdds := 5
+		if !m.refExists() {
+			createOdds = 1 // the file is missing: the open that creates it is the interesting one
+		}
+		if rapid.IntRange(0, createOdds).Draw(t, "create") == 0 {
 			a.Flag |= os.O_CREATE
 			if rapid.IntRange(0, 3).Draw(t, "excl") == 0 {
 				a.Flag |= os.O_EXCL
@@ -549,6 +573,14 @@ func run(t *testing.T, kind string) {
 	vf.Check(t, kind, func(rt *rapid.T, rec *vf.Rec) {
 		m := newMachine(kind)
 		defer m.close()
+		if rapid.IntRange(0, 3).Draw(rt, "startmissing") == 0 {
+			a := Act{K: "unlink"}
+			rec.Step(a)
+			rec.Class("start-missing")
+			if sig, msg := m.step(a); sig != "" {
+				rec.Failf(rt, sig, "%s", msg)
+			}
+		}
 		rt.Repeat(map[string]func(*rapid.T){
 			"act": func(rt *rapid.T) {
 				a := drawAct(rt, m)
